@@ -515,6 +515,26 @@ def run(ctx):
         if not has: ctx.evaluations += len(cs)
         bad = oracle(ctx, cs, lines) if rc == 0 and len(lines) == len(cs) else [(cs[min(len(lines), len(cs) - 1)], err[-400:], 'harness crashed (rc=%d) after %d cases' % (rc, len(lines)))]
         total_bad += bad
+    # ---- generated wrapper functions over primitive tables evaluated on the REAL containers (two phases: harness, then driver)
+    if exes.get(0) and have_gen:
+        ug = ['ug' + c[2:] for c in um_cases[::3]]
+        path = os.path.join(ctx.build, 'ug.cases'); open(path, 'w').write('\n'.join(ug) + '\n')
+        rc, lines, err = ctx.run_lines([exes[0]], path)
+        good = rc == 0 and len(lines) == len(ug) and all(' ||| ' in l for l in lines)
+        mism = []
+        if good:
+            tabs = ['ugt ' + l.split(' ||| ')[0] for l in lines]; want = [l.split(' ||| ')[1] for l in lines]
+            path2 = os.path.join(ctx.build, 'ugt.cases'); open(path2, 'w').write('\n'.join(tabs) + '\n')
+            rc2, got, err2 = ctx.run_lines([gen_exe], path2)
+            good = rc2 == 0 and len(got) == len(want)
+            mism = [(c, w, g) for c, w, g in zip(ug, want, got + ['<missing>'] * len(want)) if w != g]
+            ctx.evaluations += len(ug); ctx.traces_validated += len(ug) - len(mism)
+            ctx.coverage['generated_wrapper_direct'] = {'cases': len(ug), 'erase_ranges': sum(w.count(' rg ') for w in want), 'throws': sum(w.count('throw') for w in want),
+                                                         'eq_true': sum(1 for w in want if w.startswith('eq 1'))}
+        ctx.stage('corr:generated-wrapper-direct', good and not mism, (err[-300:] if not good else '') + (('first: %r real=%r generated=%r' % mism[0]) if mism else ''))
+        ctx.tie_obligations.append({'name': 'generated operator== / erase(first,last) over primitives evaluated on the real containers == real result (%d cases)' % len(ug), 'ok': good and not mism})
+        for (c, w, g) in mism[:2]:
+            ctx.violation('generated wrapper function and real function disagree', {'case': c, 'real': w[:400], 'generated': g[:400]}, found_input=True)
     ctx.stage('oracle', not total_bad, total_bad[0][2] if total_bad else '')
     for (c, out, why) in total_bad[:3]:
         ctx.violation(why, {'case': c, 'impl_output_tail': out, 'cmd': 'echo "%s" | %s' % (c, exes.get(cfg_of(c)))}, found_input=True)
